@@ -105,6 +105,12 @@ class Operator(Token):
 class Intersect(Operator):
     _re = regex.compile(r'^(?P<name>\s)\s*')
 
+    def process(self, match, context=None):
+        attr = super(Intersect, self).process(match, context=context)
+        if attr:
+            attr['name'] = ' '  # Any white space (e.g., a tab) intersects.
+        return attr
+
 
 class Separator(Operator):
     _re = regex.compile(r'^(\s*,\s*)')
